@@ -244,7 +244,30 @@ fn check_main(args: &[String]) {
         }
     }
     sum.run_digests.clear();
-    finish(property, tier, seed, &info, sum, t0, json!({}));
+    let mut extra = json!({});
+    if property == "C08" && std::env::var("VERIF_SKIP_MIRI").is_err() && std::env::var("VERIF_NO_EVIDENCE").is_err() {
+        let (n_seeds, n_plans, reps) = match tier {
+            Tier::Thorough => (256, 3, 8),
+            Tier::Quick => (16, 2, 2),
+            Tier::Tiny => (4, 1, 2),
+        };
+        let m = miri_tier(seed, n_seeds, n_plans, reps, None);
+        sum.count("miri-tier:scheduler-seeds", m.miri_seeds);
+        sum.count("miri-tier:seeds-completed", m.ok_lines);
+        sum.count("miri-tier:concurrent-client-threads", m.threads);
+        sum.count("miri-tier:operations", m.operations);
+        sum.count("miri-tier:distinct-plan-blocks", m.blocks.len() as u64);
+        extra = json!({"miri_tier": {
+            "flags": format!("-Zmiri-many-seeds=0..{n_seeds} -Zmiri-preemption-rate=0.1"),
+            "plans_per_seed": n_plans, "concurrent_repetitions_per_plan": reps,
+            "seeds_completed": m.ok_lines, "wall_s": (m.wall_s * 10.0).round() / 10.0,
+            "what": "real std::thread clients sharing &Predictor on the real library; Miri decides every preemption from its seed and reports data races / UB; results compared with the serial run",
+        }});
+        if let Some(v) = m.violation {
+            sum.violations.push(v);
+        }
+    }
+    finish(property, tier, seed, &info, sum, t0, extra);
 }
 
 fn abort_triage(property: &str, seed: u64, run: u64, how: &str) -> ViolationRec {
@@ -364,6 +387,12 @@ fn replay_main(args: &[String]) {
         "iosim-c07" => c07::replay(&rf),
         "iosim-c17" => c17::replay(&rf),
         "procsim" => procsim::replay(&rf),
+        "histsim-miri" => {
+            let n_plans = rf.plan["n_plans"].as_u64().unwrap_or(1);
+            let reps = rf.plan["reps"].as_u64().unwrap_or(1);
+            let m = miri_tier(rf.verif_seed, 1, n_plans, reps, Some(rf.miri_seed.unwrap_or(0)));
+            Ok(m.violation.map(|v| (v.class, v.detail, vec![format!("Miri seed {:?}", rf.miri_seed)])))
+        }
         _ => harness_error("unknown engine in replay file"),
     };
     match r {
@@ -427,17 +456,29 @@ fn exec_run_main(args: &[String]) {
     }
 }
 
-/// Thread tier, meant to run under Miri: `miri-run <seed> <start> <end>`.
-/// Every plan is first executed serially, then with one real thread per client sharing the
-/// predictors; Miri's seeded scheduler decides every preemption.
+/// Thread tier, meant to run under Miri: `miri-run <seed> <n_plans> <reps> [block]`.
+/// Every plan is first executed serially, then `reps` times with one real thread per client
+/// sharing the predictors; Miri's seeded scheduler decides every preemption. Which block of
+/// plans is executed is derived from Miri's own seeded randomness (the keys of a `RandomState`),
+/// so that `-Zmiri-many-seeds` explores different plans per Miri seed while `-Zmiri-seed=k`
+/// alone still identifies the execution exactly.
 fn miri_run_main(args: &[String]) {
+    use std::hash::{BuildHasher, Hasher};
     let seed: u64 = args[0].parse().unwrap();
-    let start: u64 = args[1].parse().unwrap();
-    let end: u64 = args[2].parse().unwrap();
+    let n_plans: u64 = args[1].parse().unwrap();
+    let reps: usize = args.get(2).and_then(|s| s.parse().ok()).unwrap_or(1);
+    let block: u64 = match args.get(3).and_then(|s| s.parse().ok()) {
+        Some(b) => b,
+        None => std::collections::hash_map::RandomState::new().build_hasher().finish() % (1 << 20),
+    };
+    let start = block * n_plans;
+    let end = start + n_plans;
     let mut threads = 0usize;
     let mut ops = 0usize;
     for run in start..end {
+        let t0 = Instant::now();
         let plan = hist_engine::plan_for("C08", seed, run, true);
+        let t1 = Instant::now();
         let preds = match histsim::build_predictors(&plan) {
             histsim::Built::Ok(p) => p,
             histsim::Built::HarnessError(e) => {
@@ -445,14 +486,128 @@ fn miri_run_main(args: &[String]) {
                 std::process::exit(2)
             }
         };
-        threads += plan.clients.len();
-        ops += plan.n_ops();
-        if let Some(v) = histsim::execute_threaded(&plan, &preds) {
-            println!("MIRI-TIER-VIOLATION run={run} class={} client={} op={}", v.class, v.client, v.op_index);
+        threads += plan.clients.len() * reps;
+        ops += plan.n_ops() * (reps + 1);
+        let t2 = Instant::now();
+        let r = histsim::execute_threaded(&plan, &preds, reps);
+        if std::env::var("VERIF_MIRI_TIMING").is_ok() {
+            eprintln!("run {run}: gen {:?} build {:?} exec {:?}", t1 - t0, t2 - t1, t2.elapsed());
+        }
+        if let Some(v) = r {
+            println!("MIRI-TIER-VIOLATION block={block} run={run} class={} client={} op={} detail={}", v.class, v.client, v.op_index, v.detail);
             std::process::exit(1);
         }
     }
-    println!("miri-run ok seed={seed} runs={start}..{end} client_threads={threads} operations={ops}");
+    println!("miri-run ok seed={seed} block={block} plans={start}..{end} reps={reps} client_threads={threads} operations={ops}");
+}
+
+#[derive(Default)]
+struct MiriOutcome {
+    miri_seeds: u64,
+    ok_lines: u64,
+    threads: u64,
+    operations: u64,
+    blocks: std::collections::BTreeSet<u64>,
+    violation: Option<ViolationRec>,
+    wall_s: f64,
+}
+
+/// Runs the thread tier under `cargo +nightly miri` with `n_seeds` scheduler seeds.
+fn miri_tier(seed: u64, n_seeds: u64, n_plans: u64, reps: u64, only_seed: Option<u64>) -> MiriOutcome {
+    let t0 = Instant::now();
+    let mut out = MiriOutcome::default();
+    let build = PathBuf::from(std::env::var("VERIF_BUILD").unwrap_or_else(|_| harness_error("VERIF_BUILD is not set (run through ./check)")));
+    let flags = match only_seed {
+        Some(k) => format!("-Zmiri-seed={k} -Zmiri-preemption-rate=0.1"),
+        None => format!("-Zmiri-many-seeds=0..{n_seeds} -Zmiri-preemption-rate=0.1"),
+    };
+    let res = Command::new("cargo")
+        .args(["+nightly", "miri", "run", "--offline", "--no-default-features", "--manifest-path"])
+        .arg(build.join("crate/Cargo.toml"))
+        .args(["--", "miri-run", &seed.to_string(), &n_plans.to_string(), &reps.to_string()])
+        .env("MIRIFLAGS", &flags)
+        .env("CARGO_TARGET_DIR", build.join("miri-target"))
+        .env_remove("RUSTFLAGS")
+        .output();
+    let res = match res {
+        Ok(r) => r,
+        Err(e) => harness_error(&format!("cannot run cargo +nightly miri: {e}")),
+    };
+    let stdout = String::from_utf8_lossy(&res.stdout).to_string();
+    let stderr = String::from_utf8_lossy(&res.stderr).to_string();
+    for l in stdout.lines() {
+        if l.starts_with("miri-run ok") {
+            out.ok_lines += 1;
+            for kv in l.split_whitespace() {
+                if let Some((k, v)) = kv.split_once('=') {
+                    match k {
+                        "client_threads" => out.threads += v.parse::<u64>().unwrap_or(0),
+                        "operations" => out.operations += v.parse::<u64>().unwrap_or(0),
+                        "block" => {
+                            out.blocks.insert(v.parse().unwrap_or(0));
+                        }
+                        _ => {}
+                    }
+                }
+            }
+        }
+    }
+    out.miri_seeds = only_seed.map(|_| 1).unwrap_or(n_seeds);
+    out.wall_s = t0.elapsed().as_secs_f64();
+    if !res.status.success() {
+        if stderr.contains("could not compile") || stderr.contains("error[E") {
+            eprintln!("{}", stderr.lines().rev().take(30).collect::<Vec<_>>().into_iter().rev().collect::<Vec<_>>().join("\n"));
+            harness_error("the harness does not build under Miri");
+        }
+        // which Miri seed failed, and how
+        let failing: Option<u64> = stderr
+            .lines()
+            .chain(stdout.lines())
+            .find_map(|l| l.to_ascii_lowercase().find("failing seed").map(|i| l[i..].chars().filter(|c| c.is_ascii_digit()).collect::<String>()))
+            .and_then(|d| d.parse().ok())
+            .or(only_seed);
+        let (class, detail) = if let Some(l) = stdout.lines().find(|l| l.starts_with("MIRI-TIER-VIOLATION")) {
+            let class = l.split_whitespace().find_map(|kv| kv.strip_prefix("class=")).unwrap_or("thread-result-mismatch").to_string();
+            (format!("miri:{class}"), l.to_string())
+        } else if stderr.contains("Data race detected") {
+            ("miri:data-race".to_string(), stderr.lines().find(|l| l.contains("Data race detected")).unwrap_or("").trim().to_string())
+        } else if stderr.contains("Undefined Behavior") {
+            ("miri:undefined-behavior".to_string(), stderr.lines().find(|l| l.contains("Undefined Behavior")).unwrap_or("").trim().to_string())
+        } else if stderr.contains("deadlock") {
+            ("miri:deadlock".to_string(), "the program deadlocked".to_string())
+        } else if stderr.contains("panicked at") {
+            ("miri:panic".to_string(), stderr.lines().find(|l| l.contains("panicked at")).unwrap_or("").trim().to_string())
+        } else {
+            ("miri:abnormal-exit".to_string(), stderr.lines().rev().find(|l| !l.trim().is_empty()).unwrap_or("").to_string())
+        };
+        let path = replay_path("C08", seed, failing.unwrap_or(0), "-miri");
+        let log = path.with_extension("log");
+        let _ = std::fs::write(&log, format!("MIRIFLAGS={flags}\n--- stdout ---\n{stdout}\n--- stderr ---\n{stderr}"));
+        let rf = ReplayFile {
+            property: "C08".into(),
+            engine: "histsim-miri".into(),
+            verif_seed: seed,
+            run: failing.unwrap_or(0),
+            class: class.clone(),
+            signature: "thread-tier".into(),
+            detail: format!("{detail} (full Miri report: {})", log.display()),
+            original_size: 0,
+            minimised_size: 0,
+            minimiser_executions: 0,
+            plan: json!({"verif_seed": seed, "n_plans": n_plans, "reps": reps, "miri_many_seeds": n_seeds}),
+            miri_seed: failing,
+        };
+        let _ = write_json(&path, &rf);
+        out.violation = Some(ViolationRec {
+            property: "C08".into(),
+            run: failing.unwrap_or(0),
+            class,
+            signature: "thread-tier".into(),
+            detail: rf.detail,
+            replay: path.display().to_string(),
+        });
+    }
+    out
 }
 
 fn plan_value(property: &str, seed: u64, run: u64) -> serde_json::Value {
